@@ -695,6 +695,20 @@ func c08Apply(t *testing.T, r *Rec, c *c08Case) (string, string) {
 	}
 	line := sb.String()
 
+	// ---- oracle 2 (needs no ground truth, also evaluated on replays): accepted ⇒ the account proof ALONE proves an
+	// account for keccak(configured contract) under the root stored for the height, and the storage proof ALONE proves
+	// under that account's storage root, for keccak(slot of the path), an RLP string that pads to the claimed value.
+	// Evaluated with go-ethereum's trie.VerifyProof on each component's own node set.
+	if out == "ok" {
+		if why := c08SelfContained(c, consRoot, haveCons); why != "" {
+			r.Find(Finding{Sig: "C08:accepted-not-self-contained:" + why, What: "accepted although the proof does not stand on its own (" + why + ": each component re-verified with trie.VerifyProof on its own node list, under the stored root / the proven storage root), class " + c.class,
+				Ops: []string{line}, Obs: "ok", Req: "rejected"})
+		}
+		r.Count("selfcontained.checked")
+	}
+	if strings.HasPrefix(c.class, "xc-") || strings.HasPrefix(c.class, "sp-multi") {
+		r.Count("xc." + c.client + "." + c.kind)
+	}
 	// ---- property oracle (ground truth recorded in the tag by the generator; independent of the model) ----
 	r.Count("out." + out)
 	r.Count("class." + c.class + ":" + out + ":" + c.reason)
@@ -747,6 +761,53 @@ func c08Apply(t *testing.T, r *Rec, c *c08Case) (string, string) {
 		out = "rej"
 	}
 	return line, out
+}
+
+// c08SelfContained re-verifies an accepted case component by component; "" = fine
+func c08SelfContained(c *c08Case, consRoot []byte, haveCons bool) string {
+	if !haveCons || c.rawNil {
+		return "no-consensus-state-or-proof"
+	}
+	var p struct {
+		AccountProof []string `json:"account_proof"`
+		StorageProof []*struct {
+			Proof []string `json:"proof"`
+		} `json:"storage_proof"`
+	}
+	if json.Unmarshal(c.raw, &p) != nil {
+		return "not-json"
+	}
+	if len(p.StorageProof) != 1 || p.StorageProof[0] == nil {
+		return "storage-entry-count"
+	}
+	set := func(l []string) *light.NodeSet {
+		nl := new(light.NodeList)
+		for _, s := range l {
+			_ = nl.Put(nil, common.FromHex(s))
+		}
+		return nl.NodeSet()
+	}
+	acctVal, err := trie.VerifyProof(common.BytesToHash(consRoot), crypto.Keccak256(c.contract), set(p.AccountProof))
+	if err != nil || len(acctVal) == 0 {
+		return "account-proof-alone"
+	}
+	var acct struct {
+		Nonce, Balance *big.Int
+		Root           common.Hash
+		CodeHash       []byte
+	}
+	if rlp.DecodeBytes(acctVal, &acct) != nil {
+		return "account-value"
+	}
+	val, err := trie.VerifyProof(acct.Root, crypto.Keccak256(c08Slot(c.kind, c.src, c.dst, c.seq)), set(p.StorageProof[0].Proof))
+	if err != nil || len(val) == 0 {
+		return "storage-proof-alone"
+	}
+	var t []byte
+	if rlp.DecodeBytes(val, &t) != nil || !bytes.Equal(c08Pad32(t), c.value) {
+		return "storage-proof-alone-other-value"
+	}
+	return ""
 }
 
 // ---------------------------------------------------------------------------------------------
@@ -867,6 +928,12 @@ var c08Classes = []string{
 	"fmt-upper", "fmt-mixed", "fmt-no0x", "fmt-0X", "fmt-pad-quantities", "fmt-trailing-garbage-addr", "fmt-overlong-left", "fmt-overlong-right", "fmt-odd",
 	"json-extra-field", "json-broken", "json-nil", "json-empty", "json-wrong-type", "sp-value-field",
 	"node-flip-acct", "node-flip-stor", "node-drop-acct", "node-drop-stor", "node-none-acct", "node-none-stor", "node-extra", "node-shuffle", "node-badhex",
+	// cross-component families: each proof must verify from ITS OWN node set
+	"xc-storage-to-acct-all", "xc-storage-to-acct-all", "xc-storage-to-acct-some", "xc-storage-to-acct-some", "xc-storage-to-acct-leaf", "xc-storage-to-acct-root",
+	"xc-acct-to-storage-all", "xc-acct-to-storage-some", "xc-storage-dup-in-acct", "xc-acct-dup-in-storage", "xc-swap-lists",
+	"xc-other-trie-mixed", "xc-other-trie-replaces-some", "node-dup-all",
+	// storage_proof lists with 0 / 2 / 3 entries, the matching entry first / last / absent
+	"sp-multi-first", "sp-multi-last", "sp-multi-middle", "sp-multi-absent", "sp-multi-absent-claim-other", "other-slot-proof-claim-its-value",
 	"other-slot-proof", "other-slot-nodes", "other-acct-record", "other-acct-proof", "other-state-record", "other-state-storage",
 	// consistent multi-component forgeries: every single component verifies on its own, the link between them is broken
 	"forge-storage-other-contract", "forge-storage-other-contract", "forge-storage-offchain", "forge-storage-offchain",
@@ -1059,6 +1126,161 @@ func c08Gen(r *Rec, w *c08World) *c08Case {
 			sp.Proof = append(sp.Proof, rec.AccountProof...)
 		}
 		lenient = true
+	case "xc-storage-to-acct-all", "xc-storage-to-acct-some", "xc-storage-to-acct-leaf", "xc-storage-to-acct-root":
+		// nodes of the storage proof removed from storage_proof[0].proof and appended to account_proof
+		sp := rec.StorageProof[0]
+		n := len(sp.Proof)
+		if n > 0 {
+			take := make([]bool, n)
+			switch c.class {
+			case "xc-storage-to-acct-all":
+				for i := range take {
+					take[i] = true
+				}
+			case "xc-storage-to-acct-leaf":
+				take[n-1] = true
+			case "xc-storage-to-acct-root":
+				take[0] = true
+			default:
+				take[r.Rng.Intn(n)] = true
+				for i := range take {
+					if r.Rng.Intn(3) == 0 {
+						take[i] = true
+					}
+				}
+			}
+			var keep, moved []string
+			for i, nd := range sp.Proof {
+				if take[i] {
+					moved = append(moved, nd)
+				} else {
+					keep = append(keep, nd)
+				}
+			}
+			if keep == nil {
+				keep = []string{}
+			}
+			sp.Proof = keep
+			if r.Rng.Intn(2) == 0 {
+				rec.AccountProof = append(rec.AccountProof, moved...)
+			} else {
+				rec.AccountProof = append(moved, rec.AccountProof...)
+			}
+			c.breaking = true
+		}
+	case "xc-acct-to-storage-all", "xc-acct-to-storage-some":
+		// nodes of the account proof removed from account_proof and put into the storage proof
+		n := len(rec.AccountProof)
+		var keep, moved []string
+		pick := r.Rng.Intn(n)
+		for i, nd := range rec.AccountProof {
+			if c.class == "xc-acct-to-storage-all" || i == pick || r.Rng.Intn(3) == 0 {
+				moved = append(moved, nd)
+			} else {
+				keep = append(keep, nd)
+			}
+		}
+		if keep == nil {
+			keep = []string{}
+		}
+		rec.AccountProof = keep
+		rec.StorageProof[0].Proof = append(rec.StorageProof[0].Proof, moved...)
+		c.breaking = true
+	case "xc-storage-dup-in-acct":
+		// both proofs complete; the storage nodes additionally appear among the account nodes (harmless extra nodes)
+		rec.AccountProof = append(append([]string{}, rec.AccountProof...), rec.StorageProof[0].Proof...)
+		lenient = true
+	case "xc-acct-dup-in-storage":
+		rec.StorageProof[0].Proof = append(append([]string{}, rec.AccountProof...), rec.StorageProof[0].Proof...)
+		lenient = true
+	case "xc-swap-lists":
+		rec.AccountProof, rec.StorageProof[0].Proof = rec.StorageProof[0].Proof, rec.AccountProof
+		if rec.AccountProof == nil {
+			rec.AccountProof = []string{}
+		}
+		c.breaking = true
+	case "xc-other-trie-mixed":
+		// complete proofs + nodes of other tries (other contract's storage, another state's account trie) in both lists
+		o := otherState.genuine(w.other, slot)
+		rec.AccountProof = append(append([]string{}, rec.AccountProof...), o.StorageProof[0].Proof...)
+		rec.StorageProof[0].Proof = append(append([]string{}, o.AccountProof...), rec.StorageProof[0].Proof...)
+		if r.Rng.Intn(2) == 0 {
+			rec.StorageProof[0].Proof = append(rec.StorageProof[0].Proof, o.StorageProof[0].Proof...)
+		}
+		lenient = true
+	case "xc-other-trie-replaces-some":
+		// one storage node replaced by nodes of the other contract's storage trie, the removed one hidden in account_proof
+		sp := rec.StorageProof[0]
+		if len(sp.Proof) > 0 {
+			o := st.genuine(w.other, slot)
+			i := r.Rng.Intn(len(sp.Proof))
+			removed := sp.Proof[i]
+			rec.AccountProof = append(rec.AccountProof, removed)
+			sp.Proof = append(append(append([]string{}, sp.Proof[:i]...), o.StorageProof[0].Proof...), sp.Proof[i+1:]...)
+			c.breaking = true
+			for _, nd := range sp.Proof { // the two tries can share a node (same slot, same value ⇒ same leaf)
+				if nd == removed {
+					c.breaking, lenient = false, true
+				}
+			}
+		}
+	case "node-dup-all":
+		rec.AccountProof = append(append([]string{}, rec.AccountProof...), rec.AccountProof...)
+		rec.StorageProof[0].Proof = append(append([]string{}, rec.StorageProof[0].Proof...), rec.StorageProof[0].Proof...)
+		lenient = true
+	case "sp-multi-first", "sp-multi-last", "sp-multi-middle", "sp-multi-absent", "sp-multi-absent-claim-other":
+		// eth_getProof-style answers for several slots: 2 or 3 entries, the entry of the path's slot first / last / in the
+		// middle / missing. The verifier takes exactly one entry, so all of them must be rejected.
+		var others []*c08SP
+		var firstOther c08Path
+		for _, i := range r.Rng.Perm(len(w.paths)) {
+			q := w.paths[i]
+			if q == p {
+				continue
+			}
+			if len(others) == 0 {
+				firstOther = q
+			}
+			others = append(others, st.genuine(w.contract, c08Slot(q.kind, q.src, q.dst, q.seq)).StorageProof[0])
+			if len(others) == 2 {
+				break
+			}
+		}
+		if len(others) == 2 {
+			own := rec.StorageProof[0]
+			if r.Rng.Intn(2) == 0 && c.class != "sp-multi-middle" {
+				others = others[:1]
+			}
+			switch c.class {
+			case "sp-multi-first":
+				rec.StorageProof = append([]*c08SP{own}, others...)
+			case "sp-multi-last":
+				rec.StorageProof = append(others, own)
+			case "sp-multi-middle":
+				rec.StorageProof = []*c08SP{others[0], own, others[1]}
+			default:
+				rec.StorageProof = others
+				if len(others) == 1 { // absent in a list of 2: a copy of the other entry
+					cp := *others[0]
+					rec.StorageProof = append(rec.StorageProof, &cp)
+				}
+				if c.class == "sp-multi-absent-claim-other" {
+					// … and the claimed value is what the FIRST entry's slot holds
+					if v, ok := st.accts[string(w.contract)].storage[string(c08Slot(firstOther.kind, firstOther.src, firstOther.dst, firstOther.seq))]; ok {
+						c.value = c08Pad32(v)
+					}
+				}
+			}
+			c.breaking = true
+		}
+	case "other-slot-proof-claim-its-value":
+		// a single genuine entry for ANOTHER slot, and the claimed value is what that slot holds
+		if q, ok := otherPath(); ok {
+			qs := c08Slot(q.kind, q.src, q.dst, q.seq)
+			rec = st.genuine(w.contract, qs)
+			c.value = c08Pad32(st.accts[string(w.contract)].storage[string(qs)])
+			c.breaking = true
+		}
 	case "node-shuffle":
 		r.Rng.Shuffle(len(rec.AccountProof), func(i, j int) { rec.AccountProof[i], rec.AccountProof[j] = rec.AccountProof[j], rec.AccountProof[i] })
 		sp := rec.StorageProof[0]
